@@ -29,8 +29,9 @@ type ev struct {
 }
 
 type blockIn struct {
-	Round  int64 `json:"round"`
-	Events []ev  `json:"events"`
+	Round  int64   `json:"round"`
+	Events []ev    `json:"events,omitempty"`
+	Fields *fblock `json:"field_block,omitempty"` // a field block (fields.go) instead of an event list
 }
 
 var tagOf = map[string]event.EventTag{
@@ -376,7 +377,7 @@ func coqCase(b blockIn, o blockOut) string {
 	for _, name := range o.order {
 		ms = append(ms, vh.Pair(tagCoq[name], coqItems(o.merged[name])))
 	}
-	return fmt.Sprintf("(Build_em_case %s %s %s %s)", vh.List(es), vh.List(ms), vh.Nat(o.others), coqItems(o.tickets))
+	return fmt.Sprintf("(EcBlock (Build_em_case %s %s %s %s))", vh.List(es), vh.List(ms), vh.Nat(o.others), coqItems(o.tickets))
 }
 
 func must(err error) {
@@ -390,13 +391,14 @@ func main() {
 	rep := vh.NewReport("eventmerge", "C20", o)
 	rep.Rule = "blocks of 1-20 events over 1-5 colliding indices: burn tickets (with the authorizer burn of the same transaction), bridge mints, stake lock/unlock, " +
 		"read pool locks, collected rewards, user overwrites, chain events, unique-address events, stats events without merger, non-stats events; amounts 1-1000 and " +
-		"edge values; real mergeEvents + real burn-ticket handler on an in-memory sqlite EventDb; non-trivial = at least one bridge event, one additive event and two events sharing an index; distinct by event list"
+		"edge values; real mergeEvents + real burn-ticket handler on an in-memory sqlite EventDb; field blocks: for every withEventMerge merger of the generated table (and the stake pool penalty tag) " +
+		"2-7 events of one tag over 1-3 identities, every field (scalars, delegate maps with 1-3 of 4 pools) zero/empty with probability 1/2, plus all zero/non-zero combinations directed; per identity, field and map key the merged data must sum to the events; non-trivial = at least one bridge event, one additive event and two events sharing an index; distinct by event list"
 	sc.Init()
 	common.SetupRootContext(context.Background())
 	var err error
 	edb, err = event.NewInMemoryEventDb(config.DbAccess{}, config.DbSettings{})
 	must(err)
-	cf := &vh.CasesFile{Imports: []string{"Base.Corr", "Model.EventMerge", "Corr.EventMerge"}, CaseType: "em_case", CheckFn: "em_check", Shard: 100}
+	cf := &vh.CasesFile{Imports: []string{"Base.Corr", "Model.EventMerge", "Corr.EventMerge"}, CaseType: "em_anycase", CheckFn: "em_check_any", Shard: 100}
 	handle := func(b blockIn) {
 		out := runBlock(b)
 		local := map[string]int{}
@@ -453,6 +455,56 @@ func main() {
 			rep.Violate(v.sig, v.desc, b2)
 		}
 	}
+	handleFields := func(b fblock) {
+		out := runFields(b)
+		vs := judgeFields(b, out)
+		rep.Count("field-block-" + b.Tag)
+		dup, zero := false, false
+		seen := map[int]bool{}
+		for _, e := range b.Events {
+			dup = dup || seen[e.Index]
+			seen[e.Index] = true
+			for fi, f := range e.Fields {
+				zero = zero || len(f) == 0 || (b.Fields[fi].Kind == "scalar" && f[0].Val == 0)
+			}
+		}
+		key, _ := json.Marshal(b)
+		rep.Case(string(key), dup && zero, blockIn{Round: b.Round, Fields: &b})
+		// the penalty tag is not MfAdd in the table: its blocks are judged by the oracle only
+		if out.err == "" && b.Tag != "TagStakePoolPenalty" {
+			cf.Add(coqFieldCase(b, out))
+			rep.CaseInputs = append(rep.CaseInputs, blockIn{Round: b.Round, Fields: &b})
+		}
+		for _, v := range vs {
+			dupSig := false
+			for _, old := range rep.Violations {
+				dupSig = dupSig || old.Signature == v.sig
+			}
+			if dupSig {
+				continue
+			}
+			keep := vh.ShrinkIdx(len(b.Events), func(keep []int) bool {
+				b2 := b
+				b2.Round += 100000
+				b2.Events = nil
+				for _, i := range keep {
+					b2.Events = append(b2.Events, b.Events[i])
+				}
+				for _, x := range judgeFields(b2, runFields(b2)) {
+					if x.sig == v.sig {
+						return true
+					}
+				}
+				return false
+			})
+			b2 := b
+			b2.Events = nil
+			for _, i := range keep {
+				b2.Events = append(b2.Events, b.Events[i])
+			}
+			rep.Violate(v.sig, v.desc, blockIn{Round: b.Round, Fields: &b2})
+		}
+	}
 	finish := func() {
 		files, err := cf.Write(o.Out, "C20")
 		must(err)
@@ -465,7 +517,12 @@ func main() {
 		if rb.Round == 0 {
 			rb.Round = 1
 		}
-		handle(rb)
+		if rb.Fields != nil {
+			rb.Fields.Round = rb.Round
+			handleFields(*rb.Fields)
+		} else {
+			handle(rb)
+		}
 		finish()
 		return
 	}
@@ -485,6 +542,40 @@ func main() {
 	for i := 0; i < o.N(400, 6000); i++ {
 		handle(genBlock(rnd, round))
 		round++
+	}
+	// every additive merger of the generated table, field by field
+	type target struct {
+		tag string
+		fs  []genField
+	}
+	var targets []target
+	for _, m := range loadMergers() {
+		if m.Kind != "EmMerge" || keyedReplace[m.Tag] {
+			continue
+		}
+		p, ok := payloads[m.Tag]
+		if !ok {
+			rep.Violate("C20:additive-merger-not-exercised:"+m.Tag, "the merger table has a withEventMerge merger for "+m.Tag+" ("+m.Type+") the engine has no payload for", nil)
+			continue
+		}
+		if !m.Additive || !sameFields(m.Fields, p.spec) {
+			rep.Note("merge function of %s: the translator reads [%s] %s, the handler consumes [%s]; exercised with the handler's fields", m.Tag, fieldNames(m.Fields), m.Why, fieldNames(p.spec))
+		}
+		targets = append(targets, target{m.Tag, p.spec})
+	}
+	targets = append(targets, target{"TagStakePoolPenalty", payloads["TagStakePoolPenalty"].spec})
+	frnd := vh.NewRand(o.Seed ^ 0x5eed)
+	for _, t := range targets {
+		for mask := 0; mask < 1<<len(t.fs); mask++ {
+			for _, oddFirst := range []bool{false, true} {
+				handleFields(directedFields(frnd, t.tag, t.fs, mask, oddFirst, round))
+				round++
+			}
+		}
+		for i := 0; i < o.N(12, 300); i++ {
+			handleFields(genFields(frnd, t.tag, t.fs, round))
+			round++
+		}
 	}
 	rep.Note("authorizer totals are compared on the merged event (what reaches updateAuthorizersTotalBurn / the mint handler): those handlers use PostgreSQL-only SQL (unnest) and cannot run on sqlite; burn_tickets rows are read back from the sqlite EventDb")
 	_ = sort.Ints
